@@ -63,6 +63,7 @@ class ProgGen:
         self.consts = []
         self.tvars = []
         self.newtypes = []
+        self.recs = []        # recursive aliases (string forward references to themselves / each other)
         self.bigs = []        # aliases of unions with about ten members (MultiValuedValue's hash-set fast path starts at 10)
         self.bigfuncs = []
         self.counter = 0
@@ -94,7 +95,7 @@ class ProgGen:
     def ann_safe(self, d=2, top=True):
         """An annotation expression that evaluates without error at run time."""
         r = self.r.random()
-        atoms = ["int", "str", "float", "bytes", "bool", "None", "object", "Any", "list", "dict", "tuple", "type"] + self.classes[:3] + self.tvars[:2] + self.newtypes[:1] + self.bigs * 3
+        atoms = ["int", "str", "float", "bytes", "bool", "None", "object", "Any", "list", "dict", "tuple", "type"] + self.classes[:3] + self.tvars[:2] + self.newtypes[:1] + self.bigs * 3 + self.recs * 3
         if d <= 0 or r < 0.3:
             return self.ch(atoms)
         k = self.ch(["List", "Dict", "Optional", "Union", "Tuple", "TupleVar", "Callable", "Literal", "Annotated", "Final", "ClassVar", "CallableP",
@@ -913,8 +914,34 @@ class ProgGen:
         return out
 
     def toplevel_typing(self, force=None):
-        k = force or self.ch(["tvar", "tvar", "newtype", "alias", "tvar_bound", "paramspec", "bigunion", "bigunion"])
+        k = force or self.ch(["tvar", "tvar", "newtype", "alias", "tvar_bound", "paramspec", "bigunion", "bigunion", "recalias", "recalias", "rectvar", "pep695"])
         self.f("typing_" + k)
+        if k == "recalias":
+            return self.rec_alias()
+        if k == "rectvar":
+            n = self.fresh("RV")
+            self.tvars.append(n)
+            return ["%s = TypeVar(%r, %s)" % (n, n, self.ch(["'int', 'List[%s]'" % n, "bound='List[%s]'" % n, "'Sequence[%s]', str" % n, "bound='%s'" % n,
+                                                              "int, 'Dict[str, %s]'" % n, "bound='Optional[%s]'" % n]))]
+        if k == "pep695":
+            n = self.fresh("PA")
+            self.consts.append(n)
+            v = self.ch(["simple", "rec", "variadic", "bound", "func"])
+            if v == "simple":
+                self.recs.append("%s[int]" % n)
+                return ["type %s[T] = list[T] | dict[str, T]" % n]
+            if v == "rec":
+                self.recs.append(n)
+                return ["type %s = list[%s] | dict[str, %s] | int | None" % (n, n, n)]
+            if v == "variadic":
+                self.recs.append(self.ch(["%s[int, str, [int]]", "%s[int, [int, str]]", "%s[int, str, bytes, ...]", "%s[int]"]) % n)
+                return ["type %s[T, *Ts, **P] = tuple[T, *Ts] | Callable[P, T]" % n]
+            if v == "bound":
+                self.recs.append("%s[int]" % n)
+                return ["type %s[T: (int, str)] = list[T]" % n]
+            fn = self.fresh("gf")
+            self.funcs[fn] = (1, ["a"])
+            return ["def %s[T, *Ts](a: T, *b: *Ts) -> tuple[T, *Ts]:" % fn, "    return (a, *b)", "class %s[T]:" % n, "    x: T", "    def m(self, o: '%s[T]') -> T:" % n, "        return self.x"]
         if k == "bigunion":
             n, fn = self.fresh("Big"), self.fresh("bf")
             self.bigs.append(n)
@@ -942,6 +969,59 @@ class ProgGen:
         n = self.fresh("Alias")
         self.consts.append(n)
         return ["%s = %s" % (n, self.ann_safe(2))]
+
+    def rec_alias(self):
+        """Recursive / mutually recursive aliases through string forward references, a definition using them, and a
+        module-level statement that makes typing resolve the references at import time (as a framework would)."""
+        self.f("recursive_alias")
+        a, b, fn = self.fresh("Rec"), self.fresh("Rec"), self.fresh("rf")
+        shape = self.ch(["direct", "direct", "mutual", "optional", "tuple"])
+        if shape == "direct":
+            out = ["%s = Union[int, str, None, List[%r], Dict[str, %r]]" % (a, a, a)]
+        elif shape == "mutual":
+            out = ["%s = List[%r]" % (a, b), "%s = Dict[str, Union[%r, int]]" % (b, a)]
+        elif shape == "optional":
+            out = ["%s = Optional[List[%r]]" % (a, a)]
+        else:
+            out = ["%s = Tuple[int, Optional[%r]]" % (a, a)]
+        self.recs.append(a)
+        user = self.ch(["func", "func", "dataclass", "namedtuple", "typeddict", "class", "singledispatch"])
+        if user == "func":
+            out += ["def %s(x: %s, y: %r = None) -> %s:" % (fn, a, a, a), "    z: %s = x" % a, "    return z"]
+            self.funcs[fn] = (1, ["x", "y"])
+            target = fn
+        elif user == "dataclass":
+            out += ["@dataclass", "class %s:" % fn, "    t: %s" % a, "    u: Optional[%r] = None" % fn]
+            self.classes.append(fn)
+            target = fn
+        elif user == "namedtuple":
+            out += ["class %s(NamedTuple):" % fn, "    t: %s" % a, "    n: Optional[%r] = None" % fn]
+            self.classes.append(fn)
+            target = fn
+        elif user == "typeddict":
+            out += ["class %s(TypedDict):" % fn, "    t: %s" % a, "    kids: List[%r]" % fn]
+            target = fn
+        elif user == "class":
+            out += ["class %s:" % fn, "    t: %s" % a, "    u: ClassVar[%r]" % a, "    def m(self, o: %r) -> %s:" % (fn, a), "        return self.t"]
+            self.classes.append(fn)
+            target = fn
+        else:
+            out += ["@functools.singledispatch", "def %s(x: %s):" % (fn, a), "    return x", "@%s.register" % fn, "def _(x: int):", "    return x"]
+            self.funcs[fn] = (1, ["x"])
+            target = fn
+        ev = self.ch(["hints", "hints", "hints_extras", "inspect", "none", "get_args"])
+        h = self.fresh("_h")
+        if ev == "hints":
+            out += ["try:", "    %s = typing.get_type_hints(%s)" % (h, target), "except Exception:", "    %s = None" % h]
+        elif ev == "hints_extras":
+            out += ["try:", "    %s = typing.get_type_hints(%s, include_extras=True)" % (h, target), "except Exception:", "    %s = None" % h]
+        elif ev == "inspect":
+            out += ["try:", "    import inspect", "    %s = inspect.get_annotations(%s, eval_str=True)" % (h, target), "except Exception:", "    %s = None" % h]
+        elif ev == "get_args":
+            out += ["%s = [typing.get_args(_x) for _x in typing.get_args(%s)]" % (h, a)]
+        if ev != "none":
+            self.f("import_time_annotation_evaluation")
+        return out
 
     def toplevel_func(self):
         k = self.ch(["plain", "plain", "plain", "decorated", "overload", "async", "generator", "ctxmgr"])
@@ -1005,6 +1085,8 @@ class ProgGen:
         n_items = self.r.randint(3, 9)
         if self.p(0.3):
             out += self.toplevel_typing(force="bigunion")
+        if self.p(0.3):
+            out += self.toplevel_typing(force="recalias")
         for _ in range(n_items):
             r = self.r.random()
             if r < 0.10:
